@@ -1547,6 +1547,14 @@ fn argument_key_conflicts(ast: &Program) -> AnalyzeReport {
         globals.push((key, name, is_env));
     }
 
+    // a tx name is the key of its entry in the published interface and the handle `lower` looks
+    // the template up by: two txs of one name cannot both be addressed
+    for (i, tx) in ast.txs.iter().enumerate() {
+        if ast.txs[..i].iter().any(|other| other.name.value == tx.name.value) {
+            errors.push(Error::DuplicateDefinition(tx.name.value.clone()));
+        }
+    }
+
     for tx in ast.txs.iter() {
         let mut seen: Vec<String> = Vec::new();
 
